@@ -207,7 +207,7 @@ theorem fp_wfB_iff : ∀ (d : Nat) (t : Tree Int ν d), wfB d t = true ↔ WF d 
     · rintro ⟨h1, h2⟩
       exact ⟨(sortedB_iff _).2 h1, List.all_eq_true.2 (fun e he => (ih e.2).2 (h2 e he))⟩
 
-theorem lookup_mem {π : Type} {f : Fib Int π} {c : Int} {g : π} (h : lookup f c = some g) :
+theorem fp_lookup_mem {π : Type} {f : Fib Int π} {c : Int} {g : π} (h : lookup f c = some g) :
     (c, g) ∈ f := by
   unfold lookup at h
   cases hf : f.find? (fun e => e.1 = c) with
@@ -229,7 +229,7 @@ theorem fpChildAt_wf (d : Nat) (f : Tree Int ν (d + 2)) (hw : WF (d + 2) f) (c 
     exact ⟨List.Pairwise.nil, fun e he => by cases he⟩
   | some g =>
     simp only [Option.getD_some]
-    exact hw.2 (c, g) (lookup_mem hl)
+    exact hw.2 (c, g) (fp_lookup_mem hl)
 
 theorem fpKids_wf (dflt : ν) (l : FpLevel) (d : Nat) (f : Tree Int ν (d + 2)) (hw : WF (d + 2) f) :
     ∀ k ∈ fpKids dflt l d f, WF (d + 1) k.2 := by
